@@ -253,6 +253,54 @@ func main() {
 		o.Set("sst.verifyEveryLoad", "lsm/table.go:loadBlock + lsm/builder.go:block.verifyCheckSum", "true", top == 1 && vc == 1 && okRetBefore && exact, "true")
 	}
 
+	// ---------------------------------------------------------------- tableIterator: block (re)loading
+	{
+		// seekHelper: fetch + setBlock are unconditional top-level statements (no reuse shortcut);
+		// seekToFirst / seekToLast set the block as well
+		sh := tf.Func("tableIterator.seekHelper")
+		top := map[string]bool{}
+		nested := false
+		if sh != nil {
+			for _, st := range sh.Body.List {
+				top[tf.Src(st)] = true
+				if ifs, ok := st.(*ast.IfStmt); ok {
+					for _, c := range callSrcs(tf, ifs.Body) {
+						if c == "it.bi.setBlock(block)" || strings.HasPrefix(c, "it.fetchBlock(") {
+							nested = true
+						}
+					}
+				}
+			}
+		}
+		always := top["block, err := it.fetchBlock(blockIdx)"] && top["it.bi.setBlock(block)"] && top["it.blockPos = blockIdx"] &&
+			top["it.bi.seek(key)"] && !nested
+		rewinds := true
+		for _, n := range []string{"tableIterator.seekToFirst", "tableIterator.seekToLast"} {
+			fd := tf.Func(n)
+			if fd == nil || !tf.HasStmt(fd.Body, "it.bi.setBlock(block)") || !tf.HasStmt(fd.Body, "block, err := it.fetchBlock(it.blockPos)") {
+				rewinds = false
+			}
+		}
+		switch {
+		case always && rewinds:
+			o.Set("sst.seekReloads", "lsm/table.go:tableIterator.seekHelper", "true", true, "")
+		case nested && rewinds:
+			o.Set("sst.seekReloads", "lsm/table.go:tableIterator.seekHelper", "false", true, "")
+		default:
+			o.Set("sst.seekReloads", "lsm/table.go:tableIterator.seekHelper", "", false, "true")
+		}
+		// Next: what is dropped when the block iterator runs off a block
+		nx := tf.Func("tableIterator.Next")
+		switch {
+		case nx != nil && tf.HasStmt(nx.Body, "it.bi.data = nil") && !strings.Contains(tf.Src(nx.Body), "entryOffsets"):
+			o.Set("sst.nextUnload", "lsm/table.go:tableIterator.Next", "data", true, "")
+		case nx != nil && tf.HasStmt(nx.Body, "it.bi.data, it.bi.entryOffsets = nil, nil"):
+			o.Set("sst.nextUnload", "lsm/table.go:tableIterator.Next", "both", true, "")
+		default:
+			o.Set("sst.nextUnload", "lsm/table.go:tableIterator.Next", "", false, "data")
+		}
+	}
+
 	f := o.Facts
 	cg := "false"
 	if f["sst.chkLenGuard"] == "readPos" {
@@ -267,10 +315,10 @@ open NoKV NoKV.Sst
 def sstCfg : SstCfg :=
   { splitOp := .%s, seekFallsThrough := %s, tblSeekOp := .%s, blkFwdOp := .%s, blkRevOp := .%s,
     searchVsOp := .%s, bloomSameProjection := %s, verifyBeforeCache := %s, chkLenGuardReadPos := %s,
-    verifyEveryLoad := %s }
+    verifyEveryLoad := %s, seekReloads := %s, nextUnloadsBoth := %s }
 
 end NoKV.Generated.Sst
 `, f["sst.splitOp"], f["sst.seekFallsThrough"], f["sst.tblSeekOp"], f["sst.blkFwdOp"], f["sst.blkRevOp"],
-		f["sst.searchVsOp"], f["sst.bloomSameProjection"], f["sst.verifyBeforeCache"], cg, f["sst.verifyEveryLoad"])
+		f["sst.searchVsOp"], f["sst.bloomSameProjection"], f["sst.verifyBeforeCache"], cg, f["sst.verifyEveryLoad"], f["sst.seekReloads"], map[string]string{"data": "false", "both": "true"}[f["sst.nextUnload"]])
 	o.Write(*jsonOut, *leanOut, lean)
 }
